@@ -100,7 +100,10 @@ class Runner:
         self.mic += 1
         sc = self.conn.security_control
         ct = refcrypto.seal(sc.to_bytes()[0], MT, self.mic, EK, plain, AK)
-        return xdlms.GeneralGlobalCipher(system_title=MT, security_control=sc, invocation_counter=self.mic, ciphered_text=ct).to_bytes()
+        # (a meter may leave the system-title field of its ciphered APDUs empty: the title is the one it named in the AARE; the
+        #  envelope's title is not authenticated either way)
+        env_title = {None: MT, "empty": b"", "other": b"OTHER123"}[getattr(self, "env_title", None)]
+        return xdlms.GeneralGlobalCipher(system_title=env_title, security_control=sc, invocation_counter=self.mic, ciphered_text=ct).to_bytes()
 
     def answer_bytes(self, tok):
         from dlms_cosem import enumerations as en, security
@@ -242,6 +245,7 @@ def run_session(d):
     def impl():
         r = Runner(d["ciphered"], d["state"], pre=bool(d.get("pre")))
         r.mic = d.get("mic0", 100)                 # where the meter's invocation counter stands
+        r.env_title = d.get("env_title")
         out = ["ok"]
         for name, script in d["ops"]:
             out.append(r.op(name, script))
@@ -284,6 +288,64 @@ class C19(fw.Prop):
     def make_case(self, d):
         lines, impl = run_session(d)
         return fw.Case(lines, impl, "split", d, tags=(d.get("tag", "x"), "ciphered" if d["ciphered"] else "plain"))
+
+    def ctor_case(self, d):
+        """a ciphered client built through with_tcp_transport / with_serial_hdlc_transport / directly: GET against a meter whose
+        counters start right above the configured meter counter returns the data (the connection holds the configured values)."""
+        def impl():
+            import serial
+            from dlms_cosem import cosem, enumerations as en
+            from dlms_cosem.clients.dlms_client import DlmsClient
+            from dlms_cosem.protocol import xdlms
+            klen = 32 if d["suite"] == 2 else 16
+            ek, ak = bytes(range(klen)), bytes(range(100, 100 + klen))
+            kw = dict(client_logical_address=16, server_logical_address=1, encryption_key=ek, authentication_key=ak, security_suite=d["suite"],
+                      client_system_title=CT, client_initial_invocation_counter=d["cic"], meter_initial_invocation_counter=d["mic"])
+            real = serial.Serial
+            serial.Serial = lambda *a, **k: None
+            try:
+                if d["via"] == "tcp":
+                    c = DlmsClient.with_tcp_transport(host="localhost", port=4059, **kw)
+                elif d["via"] == "serial":
+                    c = DlmsClient.with_serial_hdlc_transport(serial_port="x", server_physical_address=17, **kw)
+                else:
+                    c = DlmsClient(io_interface=None, **kw)
+            finally:
+                serial.Serial = real
+            conn = c.dlms_connection
+            problems = []
+            if (conn.client_invocation_counter, conn.meter_invocation_counter) != (d["cic"], d["mic"]):
+                problems.append(f"counters:{conn.client_invocation_counter}/{conn.meter_invocation_counter}")
+            if (conn.global_encryption_key, conn.global_authentication_key, conn.security_suite, conn.client_system_title) != (ek, ak, d["suite"], CT):
+                problems.append("keys-suite-title")
+            # one exchange on a (forced) established association with the meter's counter just above the configured one
+            from dlms_cosem import state as st
+            conn.state.current_state = st.READY
+            conn.meter_system_title = MT
+            sent = []
+
+            class IO:
+                def send(self_, data):
+                    sent.append(bytes(data))
+                    sc = 0x30 + d["suite"]
+                    ic = d["mic"] + 1
+                    plain = b"\xc4\x01\xc1\x00\x09\x02\xab\xcd"
+                    return xdlms.GeneralGlobalCipher(MT, conn.security_control, ic, refcrypto.seal(sc, MT, ic, ek, plain, ak)).to_bytes()
+            c.io_interface = IO()
+            try:
+                got = c.get(cosem.CosemAttribute(en.CosemInterface.REGISTER, cosem.Obis(1, 0, 1, 8, 0, 255), 2))
+                if bytes(got) != b"\x09\x02\xab\xcd":
+                    problems.append("get-returned:" + bytes(got).hex())
+            except fw._Timeout:
+                raise
+            except Exception as e:  # noqa
+                problems.append("get-raised:" + type(e).__name__)
+            if sent:
+                g = xdlms.GeneralGlobalCipher.from_bytes(sent[0])
+                if g.invocation_counter != d["cic"] or bytes(g.system_title) != CT:
+                    problems.append(f"request-carries:{g.invocation_counter}/{bytes(g.system_title).hex()}")
+            return "ok ctor" + ("" if not problems else " " + ",".join(problems))
+        return fw.Case("echo ctor", impl, "prop", d, tags=("constructor-" + d["via"],))
 
     # ---- generators
     def inv(self, rng, echo=True):
@@ -415,6 +477,15 @@ class C19(fw.Prop):
             for ops in ([("get", [f"gn:{INV0}:0901ff"])], [("assoc", ["aare:0:0"]), ("get", [f"gb:{INV0}:1:01", f"gl:{INV0}:2:02"])]):
                 yield self.make_case({"ciphered": ciphered, "state": "NO_ASSOCIATION" if ops[0][0] == "assoc" else "READY", "ops": ops,
                                       "tag": "second-client", "second_client": True})
+            if ciphered:
+                # meters that leave the title field of their ciphered APDUs empty
+                for et in ("empty",):
+                    ops = [("assoc", ["aare:0:0"])] + [self.good_exchange(rng) for _ in range(5)] + [("get", self.blocks_script(rng, pattern(40, 4), 4))]
+                    yield self.make_case({"ciphered": True, "state": "NO_ASSOCIATION", "ops": ops, "tag": "envelope-title", "env_title": et})
+                    yield self.make_case({"ciphered": True, "state": "READY", "ops": ops[1:], "tag": "envelope-title", "env_title": et})
+                # clients built through the alternative constructors: what was configured is what the connection works with
+                for via in ("tcp", "serial", "direct"):
+                    yield self.ctor_case({"via": via, "cic": rng.choice([0, 5000, 2 ** 31]), "mic": rng.choice([0, 9, 77]), "suite": rng.choice([0, 2])})
             # --- sessions in which the meter's invocation counter is large / crosses 2^31 / approaches 2^32
             if ciphered:
                 for mic0 in (2 ** 31 - 4, 2 ** 31, 0xC0000000, 2 ** 32 - 5000):
